@@ -387,6 +387,10 @@ func (p *Packer) resolveExternalLinkHops(root string, path string, hops int) (*e
 	if !filepath.IsAbs(absTarget) {
 		absTarget = filepath.Join(root, absTarget)
 	}
+	// An absolute target is taken as written; the walk over a directory target
+	// names its entries by their clean paths, so the base has to be clean too
+	// (a trailing separator, "/./" or "//" would garble the entry names).
+	absTarget = filepath.Clean(absTarget)
 
 	// Get the file info for the target.
 	info, err := os.Lstat(absTarget)
